@@ -62,7 +62,9 @@ Record bst := BSt {
   b_names : list string;                     (* final name of value id i at position i *)
   b_cache : list (string * (string * lit));  (* constant cache of the root builder: key -> (name, literal) *)
   b_total : nat;                             (* nodes created so far by all builders of the tree *)
-  b_nnames : list string                     (* node names in creation order *)
+  b_nnames : list string;                    (* node names in creation order *)
+  b_anon : list string                       (* names of the values no trace id refers to: outputs of the CastLike
+                                                nodes inserted by _cast_inputs, in creation order *)
 }.
 
 Definition name_of (s : bst) (id : nat) : string := nth id (b_names s) "?undefined".
@@ -112,7 +114,7 @@ Section Build.
   Definition fresh (s : bst) (gen : string) : bst * string :=
     let id := List.length (b_names s) in
     let nm := match assoc_last id renames with Some d => d | None => gen end in
-    (BSt (b_names s ++ [nm]) (b_cache s) (b_total s) (b_nnames s), nm).
+    (BSt (b_names s ++ [nm]) (b_cache s) (b_total s) (b_nnames s) (b_anon s), nm).
 
   Fixpoint fresh_many (s : bst) (gens : list string) : bst * list string :=
     match gens with
@@ -122,7 +124,10 @@ Section Build.
 
   (* one more node in some graph of the tree *)
   Definition bump (s : bst) (nname : string) : bst :=
-    BSt (b_names s) (b_cache s) (S (b_total s)) (b_nnames s ++ [nname]).
+    BSt (b_names s) (b_cache s) (S (b_total s)) (b_nnames s ++ [nname]) (b_anon s).
+
+  Definition note_anon (s : bst) (o : string) : bst :=
+    BSt (b_names s) (b_cache s) (b_total s) (b_nnames s) (b_anon s ++ [o]).
 
   (* _get_or_create_constant *)
   Definition promote (s : bst) (l : lit) : bst * string :=
@@ -133,7 +138,7 @@ Section Build.
                | LNFixed x => x
                | LNIndexed p => p ++ dec (List.length (b_cache s))
                end in
-      (BSt (b_names s) (b_cache s ++ [(l_key l, (n, l))]) (b_total s) (b_nnames s), n)
+      (BSt (b_names s) (b_cache s ++ [(l_key l, (n, l))]) (b_total s) (b_nnames s) (b_anon s), n)
     end.
 
   (* _cast_inputs: operands in order; a CastLike node per OLitCast *)
@@ -155,7 +160,7 @@ Section Build.
         let c := cnt s1 local in
         (* the CastLike output is an ir.Value nobody else holds: it gets a name but no id here *)
         let o := qualify_value st (base_name "CastLike" c) in
-        let s3 := bump s1 (node_name st "CastLike" c) in
+        let s3 := note_anon (bump s1 (node_name st "CastLike" c)) o in
         let nd := Node "" "CastLike" [Some n; Some (name_of s like)] [o] [] [] in
         let '(s', local', ins, pre) := resolve st s3 (S local) r in (s', local', Some o :: ins, nd :: pre)
       end
@@ -185,7 +190,7 @@ Section Build.
       (s4, S local2, (pre ++ [Node dom op ins onames attrs sgs])%list)
     | CRaw nodes nnames newvals =>
       let '(s1, _) := fresh_many s newvals in
-      (BSt (b_names s1) (b_cache s1) (b_total s1 + List.length nodes) (b_nnames s1 ++ nnames),
+      (BSt (b_names s1) (b_cache s1) (b_total s1 + List.length nodes) (b_nnames s1 ++ nnames) (b_anon s1),
        local + List.length nodes, nodes)
     end
   with build_sub (sb : sub) (s : bst) {struct sb} : bst * graph :=
@@ -212,7 +217,7 @@ Section Build.
     end.
 End Build.
 
-Definition init_state (ins : list string) : bst := BSt ins [] 0 [].
+Definition init_state (ins : list string) : bst := BSt ins [] 0 [] [].
 
 (* the root graph: inputs, the trace, the ids of the outputs *)
 Definition build_state (cf : bcfg) (ins : list string) (tr : list call) : bst * list node :=
